@@ -185,6 +185,9 @@ def main():
     cache = FnCache()
     from harness.lie import prelude as _prelude
     _prelude(run, report=())
+    from harness import history as _history      # engine H: call histories in fresh interpreters (spec/LieHistory.tla)
+    if _history.hook(run, tier, {"Jl", "Jr", "Jli", "Jri", "Jl_after_Jr", "Jr_after_Jl"}):
+        return run.finish()
     if "--replay" in sys.argv:
         d = json.load(open(sys.argv[sys.argv.index("--replay") + 1]))
         replay(run, cache, d["data"]["tv"])
